@@ -47,6 +47,9 @@ def scenarios(ctx: Ctx):
     # hold duplicate messages of it: the release and the two claims all go through the same per-invocation lock
     base.append({"n": 1, "dups": [0, 0], "block": [], "limit": 1, "actors": 2, "run": False, "release": True,
                  "budget": 2600, "preemptions": 3})
+    # a holder on its way from PENDING to RUNNING, the pending-recovery task (time-out 0) taking the invocation back, and a second
+    # runner claiming it: the holder's late RUNNING request must be refused once it no longer holds the invocation
+    base.append({"n": 1, "dups": [], "block": [], "limit": 1, "actors": 2, "run": True, "recover": True, "budget": 1200, "preemptions": 2})
     if ctx.thorough:
         base += [{"n": 3, "dups": [0, 2], "block": [1], "limit": 2, "actors": 3, "run": True},
                  {"n": 2, "dups": [0, 0], "block": [], "limit": 2, "actors": 4, "run": False}]
@@ -54,7 +57,7 @@ def scenarios(ctx: Ctx):
 
 
 def run_one(kind, scratch, sc, prefix, chooser=None):
-    w = D.World(kind, scratch, line_level=True)
+    w = D.World(kind, scratch, line_level=True, **({"max_pending_seconds": 0.0} if sc.get("recover") else {}))
     s = S.Sched()
     if kind == "mem":
         s.trace_targets = {("mem_orchestrator.py", "_atomic_status_transition"), ("mem_orchestrator.py", "_get_invocation_lock")}
@@ -82,6 +85,16 @@ def run_one(kind, scratch, sc, prefix, chooser=None):
             setattr(obj, name, wrapped)
     if sc.get("release"):
         s.spawn("rel", lambda: w.app.orchestrator.reroute_invocations({ids[0]}, world.runner_ctx("rec")))
+    if sc.get("recover"):
+        def recoverer():
+            from pynenc import context, core_tasks
+            context.set_current_app(w.app)
+            context.set_runner_context(w.app.app_id, world.runner_ctx("rec"))
+            try:
+                core_tasks.recover_pending_invocations()
+            except Exception:  # noqa: BLE001 - a lost race is the recovery task's own business (C04)
+                pass
+        s.spawn("rec", recoverer)
     for k in range(sc["actors"]):
         body = w.polling_runner(f"r{k}", sc["limit"], outs[k]) if sc["run"] else w.poller(f"r{k}", sc["limit"], outs[k])
         s.spawn(f"r{k}", body)
@@ -151,7 +164,9 @@ def main(ctx: Ctx) -> int:
             for sc in scenarios(ctx):
                 n = 0
                 if sc["actors"] <= 2:
-                    budget = (sc.get("budget") if (kind == "mem" or ctx.thorough) else None) or (1500 if ctx.thorough else 220)
+                    budget = (sc.get("budget") if (kind == "mem" or ctx.thorough or sc.get("recover")) else None) or (1500 if ctx.thorough else 220)
+                    if sc.get("recover") and kind == "mem" and not ctx.thorough:
+                        budget = 400
                     it = S.explore(lambda p: run_one(kind, scratch, sc, p), max_preemptions=sc.get("preemptions") or (3 if ctx.thorough else 2),
                                    max_runs=budget, preempt_at=critical)
                 else:
